@@ -10,6 +10,7 @@ open OPM OPM.Wire OPM.Archive
   `r <text>`           → `ok <rows>` | `err:newline`                  (csv reader on a file text)
   `tags <k;name;unit|…>` → `ok`    (k ∈ p,m,s; unit `N` = None)       (new archiver over these tags)
   `start` · `row <now>` · `set <i> <val>` · `sim <i> <val>` · `stopsim <i>` · `mark <i> <text>` → `ok`
+  `stop` · `startlow` → `ok` · `files` → `<k>` + the k file texts · `readall` → `<k>` + reader on each · `last` → text | `nofile`
   `file` → text · `log` → rows · `read` → `ok <rows>` (reader on the model's file)
   row  = fields joined by `;`, the empty row is `E`;  rows = rows joined by `|`, no rows is `N`
   val  = `n` | `f:<neg 0/1>:<num>:<den>` (exact float) | `i:<int>` | `s:<text>` -/
@@ -92,6 +93,15 @@ def step (st : Option State) (line : String) : Option State × String :=
     match i.toNat?, decodeStr t with
     | some i, some t => if kindAt s i = some .mark then (some (stepOp s (.mark i t.toList)), "ok") else (st, "bad-op")
     | _, _ => (st, "bad-op")
+  | ["stop"], some s => (some (stepOp s .stop), "ok")
+  | ["startlow"], some s => (some (stepOp s .startLow), "ok")
+  | ["files"], some s =>
+    let fs := s.finished.map (·.1) ++ (if s.fileExists then [s.file] else [])
+    (st, toString fs.length ++ String.join (fs.map (fun f => "\t" ++ encodeChars f)))
+  | ["readall"], some s =>
+    let fs := s.finished.map (·.1) ++ (if s.fileExists then [s.file] else [])
+    (st, toString fs.length ++ String.join (fs.map (fun f => " # " ++ showR (readFile f))))
+  | ["last"], some s => (st, match s.lastRun with | some t => encodeChars t | none => "nofile")
   | ["file"], some s => (st, encodeChars s.file)
   | ["log"], some s => (st, encRows s.log)
   | ["read"], some s => (st, showR (readFile s.file))
